@@ -397,7 +397,10 @@ def gen_deviations(tier):
 def gen_structure(tier):
     elems = {"i": ("5", "a = a + 1;", "1"), "s": ('"elem-of-a-table-long-enough-for-the-heap"', 'a = a + "x";', '"y"'), "t": ("tab(3, 1)", "a.concat(2);", "tab(1, 9)")}
     outers = ["forall a in t loop %s end loop;", "forall a in t desc loop %s end loop;", "for k in 0 to 1 loop forall a in t loop %s end loop; end loop;",
-              "n = 0; while n < 2 loop n = n + 1; forall a in t loop %s end loop; end loop;", "forall a in t loop forall a2 in t loop %s end loop; end loop;"]
+              "n = 0; while n < 2 loop n = n + 1; forall a in t loop %s end loop; end loop;", "forall a in t loop forall a2 in t loop %s end loop; end loop;",
+              # the iterated table as its own iterator (refused, or harmless)
+              "a = 0; forall t in t loop %s end loop;", "a = 0; tt = tab(2, t); forall tt in tt.at(0) loop %s end loop;",
+              "a = 0; forall t in tab(2, t) loop %s end loop;"]
     inners = ["", "forall b in t loop nop; end loop;", "forall b in t loop break; end loop;", "forall b in t desc loop continue; end loop;",
               "begin forall b in t loop raise e1; end loop; exception when others then nop; end;",
               "forall b in t loop forall c in t loop nop; end loop; end loop;", "begin raise e2; exception when e2 then nop; end;",
